@@ -393,6 +393,25 @@ func TestVerifC15Cmd(t *testing.T) {
 		}
 	}
 
+	// ---- OBSERVATION (no clause of C15; stated in the assumptions): two hosts given the SAME peer string are ONE
+	// contender - the second one's campaign extends the first one's lease and both are told leader. Drawn by force
+	// (an IP literal and a host name), counted, never reported.
+	for _, same := range []vfC15Host{{listen: "10.0.0.5:18001"}, {listen: "0.0.0.0:18001", peer: "syncer.internal:18001"}} {
+		st.VerifReset(1000)
+		ra := vfC15RunHost(t, st, dir, same.yaml(st.Addr(), true, ""))
+		rb := vfC15RunHost(t, st, dir, same.yaml(st.Addr(), true, ""))
+		s.Op(fmt.Sprintf("contend %d %s %s %s %s", idx, vfutil.HexS(same.listen), vfutil.HexS(same.peer), vfutil.HexS(same.listen), vfutil.HexS(same.peer)))
+		idx++
+		switch {
+		case ra.ran && rb.ran && ra.id == rb.id && ra.leader && rb.leader:
+			s.Count("contend_equal_ids_both_told_leader_observed")
+		case ra.ran && rb.ran && ra.id == rb.id:
+			s.Count("contend_equal_ids_one_told_leader")
+		default:
+			s.Count("contend_equal_ids_not_run")
+		}
+	}
+
 	// ---- OBSERVATION (no clause of C15): one source, spelled differently in two hosts' configurations
 	// (input.redis.addresses). The election key is built from the source's ADDRESS STRING as each instance knows it
 	// (runCluster: shard.Master.Address), so such hosts contend on two different keys = through two different leases, and
